@@ -39,8 +39,8 @@ Notation run := (mrun max true).
    exception_try has reset it by then. *)
 Definition refines (p : prog) (st : mstate) : Prop :=
   forall tr r st', run p st = (tr, r, st') ->
-  forall tr0 r0, ref_run (depth st) p = (tr0, r0) ->
-  tr = tr0 /\ bufs st' = bufs st /\
+  forall tr0 r0 c', ref_run (depth st) (msg st) p = (tr0, r0, c') ->
+  tr = tr0 /\ bufs st' = bufs st /\ msg st' = c' /\
   match r0 with
   | RNormal => r = MNormal /\ (active st = false -> active st' = false)
   | RRaised k m => obj st' = Some k /\ msg st' = m /\ r = jump_or_die st'
@@ -49,34 +49,34 @@ Definition refines (p : prog) (st : mstate) : Prop :=
 Lemma refine : forall p st, depth st + nesting p <= max -> refines p st.
 Proof.
   induction p as [ | n | p IHp q IHq | k m | b IHb fs h IHh | p IHp ];
-    intros st Hbound tr r st' Hrun tr0 r0 Href; cbn [nesting] in Hbound.
+    intros st Hbound tr r st' Hrun tr0 r0 c' Href; cbn [nesting] in Hbound.
   - (* PSkip *)
-    cbn in Hrun, Href. inversion Hrun; inversion Href; subst. auto.
+    cbn in Hrun, Href. inversion Hrun; inversion Href; subst. repeat split; auto.
   - (* PTick *)
-    cbn in Hrun, Href. inversion Hrun; inversion Href; subst. auto.
+    cbn in Hrun, Href. inversion Hrun; inversion Href; subst. repeat split; auto.
   - (* PSeq *)
     cbn [mrun ref_run] in Hrun, Href.
     destruct (run p st) as [[t1 r1] s1] eqn:E1.
-    destruct (ref_run (depth st) p) as [t01 r01] eqn:R1.
+    destruct (ref_run (depth st) (msg st) p) as [[t01 r01] c1] eqn:R1.
     assert (Hp : depth st + nesting p <= max) by lia.
-    destruct (IHp st Hp _ _ _ E1 _ _ R1) as (-> & Hb1 & Hres1).
+    destruct (IHp st Hp _ _ _ E1 _ _ _ R1) as (-> & Hb1 & Hm1 & Hres1).
     destruct r01 as [ | k m].
     + destruct Hres1 as (-> & Hact1).
       destruct (run q s1) as [[t2 r2] s2] eqn:E2.
-      rewrite <- (depth_bufs _ _ Hb1) in Href.
-      destruct (ref_run (depth s1) q) as [t02 r02] eqn:R2.
+      rewrite <- (depth_bufs _ _ Hb1), <- Hm1 in Href.
+      destruct (ref_run (depth s1) (msg s1) q) as [[t02 r02] c2] eqn:R2.
       assert (Hq : depth s1 + nesting q <= max) by (rewrite (depth_bufs _ _ Hb1); lia).
-      destruct (IHq s1 Hq _ _ _ E2 _ _ R2) as (-> & Hb2 & Hres2).
+      destruct (IHq s1 Hq _ _ _ E2 _ _ _ R2) as (-> & Hb2 & Hm2 & Hres2).
       inversion Hrun; inversion Href; subst.
-      split; [reflexivity|]. split; [congruence|].
+      split; [reflexivity|]. split; [congruence|]. split; [reflexivity|].
       destruct r0; [|exact Hres2].
       destruct Hres2 as (-> & Hact2). split; [reflexivity|]. auto.
     + destruct Hres1 as (Ho & Hm & Hr1).
       assert (Hrun' : (t01, r1, s1) = (tr, r, st')).
       { rewrite Hr1 in *. unfold jump_or_die in *. destruct (bufs s1); exact Hrun. }
-      inversion Hrun'; inversion Href; subst. auto.
+      inversion Hrun'; inversion Href; subst. repeat split; auto.
   - (* PThrow *)
-    cbn in Hrun, Href. inversion Hrun; inversion Href; subst. cbn. auto.
+    cbn in Hrun, Href. inversion Hrun; inversion Href; subst. cbn. repeat split; auto.
   - (* PTry *)
     cbn [mrun ref_run] in Hrun, Href.
     unfold exception_try in Hrun.
@@ -84,17 +84,18 @@ Proof.
     rewrite Hne in Hrun.
     set (s0 := MS (obj st) (msg st) (depth st :: bufs st) false) in *.
     assert (Hd0 : depth s0 = S (depth st)) by reflexivity.
+    assert (Hm0 : msg s0 = msg st) by reflexivity.
     destruct (run b s0) as [[t1 r1] s1] eqn:E1.
-    rewrite <- Hd0 in Href.
-    destruct (ref_run (depth s0) b) as [t01 r01] eqn:R1.
+    rewrite <- Hd0, <- Hm0 in Href.
+    destruct (ref_run (depth s0) (msg s0) b) as [[t01 r01] c1] eqn:R1.
     assert (Hb : depth s0 + nesting b <= max) by (rewrite Hd0; lia).
-    destruct (IHb s0 Hb _ _ _ E1 _ _ R1) as (-> & Hb1 & Hres1).
+    destruct (IHb s0 Hb _ _ _ E1 _ _ _ R1) as (-> & Hb1 & Hm1 & Hres1).
     destruct r01 as [ | k m].
     + (* body ended normally: pop, catch sees active = false *)
       destruct Hres1 as (-> & Hact1). specialize (Hact1 eq_refl).
       unfold exception_try_end in Hrun. rewrite Hb1 in Hrun. cbn [bufs s0] in Hrun.
       unfold exception_catch in Hrun. cbn [active] in Hrun. rewrite Hact1 in Hrun. cbn in Hrun.
-      inversion Hrun; inversion Href; subst. cbn. auto.
+      inversion Hrun; inversion Href; subst. cbn. repeat split; auto.
     + (* body raised: the jump names our buffer; fail, pop, catch *)
       destruct Hres1 as (Ho & Hm & Hr1).
       unfold jump_or_die in Hr1. rewrite Hb1 in Hr1. cbn [bufs s0] in Hr1. subst r1.
@@ -107,19 +108,20 @@ Proof.
         unfold clear_active in Hrun. cbn [obj msg bufs active] in Hrun.
         set (s4 := MS (Some k) (msg s1) (bufs st) false) in *.
         assert (Hd4 : depth s4 = depth st) by reflexivity.
+        assert (Hm4 : msg s4 = c1) by exact Hm1.
         destruct (run h s4) as [[t2 r2] s5] eqn:E2.
-        rewrite <- Hd4 in Href.
-        destruct (ref_run (depth s4) h) as [t02 r02] eqn:R2.
+        rewrite <- Hd4, <- Hm4 in Href.
+        destruct (ref_run (depth s4) (msg s4) h) as [[t02 r02] c2] eqn:R2.
         assert (Hh : depth s4 + nesting h <= max) by (rewrite Hd4; lia).
-        destruct (IHh s4 Hh _ _ _ E2 _ _ R2) as (-> & Hb2 & Hres2).
+        destruct (IHh s4 Hh _ _ _ E2 _ _ _ R2) as (-> & Hb2 & Hm2 & Hres2).
         inversion Hrun; inversion Href; subst.
-        split; [now rewrite Hd4|]. split; [exact Hb2|].
+        split; [now rewrite Hd4|]. split; [exact Hb2|]. split; [reflexivity|].
         destruct r0; [|exact Hres2].
         destruct Hres2 as (-> & Hact2). split; [reflexivity|]. intros _. exact (Hact2 eq_refl).
       * (* not for us: outwards *)
-        inversion Hrun; inversion Href; subst. cbn. auto.
+        inversion Hrun; inversion Href; subst. cbn. repeat split; auto.
   - (* PCall *)
-    cbn [mrun ref_run] in Hrun, Href. exact (IHp st Hbound _ _ _ Hrun _ _ Href).
+    cbn [mrun ref_run] in Hrun, Href. exact (IHp st Hbound _ _ _ Hrun _ _ _ Href).
 Qed.
 
 End Refinement.
@@ -131,8 +133,8 @@ Definition mach := mrun exc_max_depth clear_active_on_catch.
 Lemma machine_refines_structured : forall p st,
   depth st + nesting p <= exc_max_depth ->
   let '(tr, r, st') := mach p st in
-  let '(tr0, r0) := ref_run (depth st) p in
-  tr = tr0 /\ depth st' = depth st /\ bufs st' = bufs st /\
+  let '(tr0, r0, c') := ref_run (depth st) (msg st) p in
+  tr = tr0 /\ depth st' = depth st /\ bufs st' = bufs st /\ msg st' = c' /\
   match r0 with
   | RNormal => r = MNormal /\ (active st = false -> active st' = false)
   | RRaised k m =>
@@ -145,18 +147,18 @@ Lemma machine_refines_structured : forall p st,
 Proof.
   intros p st Hb. unfold mach. rewrite clear_active_generated.
   destruct (mrun exc_max_depth true p st) as [[tr r] st'] eqn:E.
-  destruct (ref_run (depth st) p) as [tr0 r0] eqn:R.
-  destruct (refine exc_max_depth p st Hb _ _ _ E _ _ R) as (-> & Hbufs & Hres).
-  split; [reflexivity|]. split; [exact (depth_bufs _ _ Hbufs)|]. split; [exact Hbufs|].
+  destruct (ref_run (depth st) (msg st) p) as [[tr0 r0] c'] eqn:R.
+  destruct (refine exc_max_depth p st Hb _ _ _ E _ _ _ R) as (-> & Hbufs & Hmsg & Hres).
+  split; [reflexivity|]. split; [exact (depth_bufs _ _ Hbufs)|]. split; [exact Hbufs|]. split; [exact Hmsg|].
   destruct r0 as [|k m]; [exact Hres|].
   destruct Hres as (Ho & Hm & ->). split; [exact Ho|]. split; [exact Hm|].
   unfold jump_or_die. rewrite Hbufs. destruct (bufs st); [now rewrite Ho, Hm | reflexivity].
 Qed.
 
-(* a whole program, started on the fresh record of a thread *)
+(* a whole program, started on the fresh record of a thread (no object, empty message) *)
 Lemma whole_program : forall p, nesting p <= exc_max_depth ->
   let '(tr, r, st') := mach p st_init in
-  let '(tr0, r0) := ref_run 0 p in
+  let '(tr0, r0, c') := ref_run 0 0 p in
   tr = tr0 /\ depth st' = 0 /\
   r = match r0 with RNormal => MNormal | RRaised k m => MDied (Some k) m end.
 Proof.
@@ -164,9 +166,9 @@ Proof.
   pose proof (machine_refines_structured p st_init) as H. cbn [depth st_init bufs length Nat.add] in H.
   specialize (H Hb).
   destruct (mach p st_init) as [[tr r] st'].
-  change (depth st_init) with 0 in H.
-  destruct (ref_run 0 p) as [tr0 r0].
-  destruct H as (-> & Hd & _ & Hres). split; [reflexivity|]. split; [exact Hd|].
+  change (depth st_init) with 0 in H. change (msg st_init) with 0 in H.
+  destruct (ref_run 0 0 p) as [[tr0 r0] c'].
+  destruct H as (-> & Hd & _ & _ & Hres). split; [reflexivity|]. split; [exact Hd|].
   destruct r0; [apply Hres | apply Hres].
 Qed.
 
@@ -174,9 +176,9 @@ Qed.
    by blocks inside it — never runs its handler, whatever its filter *)
 Lemma handled_not_seen_outside : forall B fs h st,
   depth st + S (nesting B) <= exc_max_depth ->
-  snd (ref_run (S (depth st)) B) = RNormal ->
+  snd (fst (ref_run (S (depth st)) (msg st) B)) = RNormal ->
   let '(tr, r, st') := mach (PTry B fs h) st in
-  tr = fst (ref_run (S (depth st)) B) /\ r = MNormal /\ depth st' = depth st /\ active st' = false.
+  tr = fst (fst (ref_run (S (depth st)) (msg st) B)) /\ r = MNormal /\ depth st' = depth st /\ active st' = false.
 Proof.
   intros B fs h st Hb HN. unfold mach. rewrite clear_active_generated.
   cbn [mrun]. unfold exception_try.
@@ -184,11 +186,12 @@ Proof.
   rewrite Hne.
   set (s0 := MS (obj st) (msg st) (depth st :: bufs st) false).
   assert (Hd0 : depth s0 = S (depth st)) by reflexivity.
+  assert (Hm0 : msg s0 = msg st) by reflexivity.
   destruct (mrun exc_max_depth true B s0) as [[t1 r1] s1] eqn:E1.
-  rewrite <- Hd0 in HN |- *.
-  destruct (ref_run (depth s0) B) as [t01 r01] eqn:R1. cbn [snd fst] in *. subst r01.
+  rewrite <- Hd0, <- Hm0 in HN |- *.
+  destruct (ref_run (depth s0) (msg s0) B) as [[t01 r01] c1] eqn:R1. cbn [snd fst] in *. subst r01.
   assert (Hb0 : depth s0 + nesting B <= exc_max_depth) by (rewrite Hd0; lia).
-  destruct (refine exc_max_depth B s0 Hb0 _ _ _ E1 _ _ R1) as (-> & Hb1 & -> & Hact).
+  destruct (refine exc_max_depth B s0 Hb0 _ _ _ E1 _ _ _ R1) as (-> & Hb1 & _ & -> & Hact).
   specialize (Hact eq_refl).
   unfold exception_try_end. rewrite Hb1. cbn [bufs s0].
   unfold exception_catch. cbn [active]. rewrite Hact. cbn. auto.
@@ -206,60 +209,61 @@ Qed.
    block structure: the outer handler runs for an exception the inner block handled ... *)
 Definition d3_witness : prog := PTry (PTry (PThrow 0 5) [0] (PTick 1)) [] (PTick 2).
 (* ... and with a non-matching outer filter the program dies although nothing is unhandled *)
-Definition d3_witness_dies : prog := PSeq (PTry (PTry (PThrow 0 5) [0] (PTick 1)) [1] (PTick 2)) (PTick 3).
+Definition d3_witness_dies : prog := PSeq (PTry (PTry (PThrow 0 5) [0] (PTick 1)) [10] (PTick 2)) (PTick 3).
 
 Lemma unrepaired_refuted :
   exists p, nesting p <= exc_max_depth /\
-    fst (fst (mrun exc_max_depth false p st_init)) <> fst (ref_run 0 p).
+    fst (fst (mrun exc_max_depth false p st_init)) <> fst (fst (ref_run 0 0 p)).
 Proof. exists d3_witness. split; [apply Nat.leb_le; vm_compute; reflexivity | vm_compute; discriminate]. Qed.
 
 Lemma unrepaired_refuted_dies :
-  exists p, nesting p <= exc_max_depth /\ snd (ref_run 0 p) = RNormal /\
+  exists p, nesting p <= exc_max_depth /\ snd (fst (ref_run 0 0 p)) = RNormal /\
     snd (fst (mrun exc_max_depth false p st_init)) = MDied (Some 0) 5.
 Proof. exists d3_witness_dies. split; [apply Nat.leb_le; vm_compute; reflexivity | split; vm_compute; reflexivity]. Qed.
 
 (* ------------------------------------------------------------------ the structured semantics, read declaratively *)
 
-Lemma matches_spec : forall fs k, matches fs k = true <-> (fs = [] \/ In k fs).
+Lemma matches_spec : forall fs k, matches fs k = true <-> accepts fs k.
 Proof.
-  intros fs k. unfold matches. destruct fs as [|f fs'].
+  intros fs k. unfold matches, accepts. destruct fs as [|f fs'].
   - split; auto.
   - rewrite existsb_exists. split.
-    + intros (x & Hin & Heq). apply Nat.eqb_eq in Heq. subst x. now right.
-    + intros [H|H]; [discriminate|]. exists k. split; [exact H | apply Nat.eqb_refl].
+    + intros (x & Hin & Heq). apply Nat.eqb_eq in Heq. right. now exists x.
+    + intros [H|(x & Hin & Heq)]; [discriminate|]. exists x. split; [exact Hin | now apply Nat.eqb_eq].
 Qed.
 
-Lemma matches_false_spec : forall fs k, matches fs k = false <-> (fs <> [] /\ ~ In k fs).
+Lemma matches_false_spec : forall fs k, matches fs k = false <-> rejects fs k.
 Proof.
-  intros fs k. split.
+  intros fs k. unfold rejects. split.
   - intros H. split.
     + intros ->. discriminate.
-    + intros Hin. assert (matches fs k = true) by (apply matches_spec; now right). congruence.
+    + intros f Hin Heq. assert (matches fs k = true) by (apply matches_spec; right; now exists f). congruence.
   - intros (Hne & Hnin). destruct (matches fs k) eqn:E; [|reflexivity].
-    apply matches_spec in E. destruct E; contradiction.
+    apply matches_spec in E. destruct E as [E|(f & Hin & Heq)]; [contradiction|]. exfalso. exact (Hnin f Hin Heq).
 Qed.
 
-Lemma ref_run_eval : forall p d, eval d p (fst (ref_run d p)) (snd (ref_run d p)).
+Lemma ref_run_eval : forall p d c t r c', ref_run d c p = (t, r, c') -> eval d c p t r c'.
 Proof.
-  induction p as [ | n | p IHp q IHq | k m | b IHb fs h IHh | p IHp ]; intros d; cbn [ref_run].
-  - constructor.
-  - constructor.
-  - specialize (IHp d). specialize (IHq d).
-    destruct (ref_run d p) as [t1 [|k m]]; cbn [fst snd] in *.
-    + destruct (ref_run d q) as [t2 r2]; cbn [fst snd] in *. now apply EvSeqNormal.
-    + now apply EvSeqRaised.
-  - constructor.
-  - specialize (IHb (S d)). specialize (IHh d).
-    destruct (ref_run (S d) b) as [t1 [|k m]]; cbn [fst snd] in *.
-    + now apply EvTryNormal.
+  induction p as [ | n | p IHp q IHq | k m | b IHb fs h IHh | p IHp ]; intros d c t r c' H; cbn [ref_run] in H.
+  - inversion H; subst. constructor.
+  - inversion H; subst. constructor.
+  - destruct (ref_run d c p) as [[t1 r1] c1] eqn:R1. apply IHp in R1.
+    destruct r1 as [|k m].
+    + destruct (ref_run d c1 q) as [[t2 r2] c2] eqn:R2. apply IHq in R2.
+      inversion H; subst. eapply EvSeqNormal; eassumption.
+    + inversion H; subst. now apply EvSeqRaised.
+  - inversion H; subst. constructor.
+  - destruct (ref_run (S d) c b) as [[t1 r1] c1] eqn:R1. apply IHb in R1.
+    destruct r1 as [|k m].
+    + inversion H; subst. now apply EvTryNormal.
     + destruct (matches fs k) eqn:Hm.
-      * destruct (ref_run d h) as [t2 r2]; cbn [fst snd] in *.
-        apply EvTryHandled; [exact IHb | now apply matches_spec | exact IHh].
-      * apply matches_false_spec in Hm. destruct Hm. now apply EvTryPassed.
-  - constructor. apply IHp.
+      * destruct (ref_run d c1 h) as [[t2 r2] c2] eqn:R2. apply IHh in R2.
+        inversion H; subst. eapply EvTryHandled; [exact R1 | now apply matches_spec | exact R2].
+      * apply matches_false_spec in Hm. inversion H; subst. now apply EvTryPassed.
+  - constructor. now apply IHp.
 Qed.
 
-Lemma eval_ref_run : forall d p t r, eval d p t r -> ref_run d p = (t, r).
+Lemma eval_ref_run : forall d c p t r c', eval d c p t r c' -> ref_run d c p = (t, r, c').
 Proof.
   induction 1; cbn [ref_run]; try reflexivity.
   - now rewrite IHeval1, IHeval2.
@@ -272,41 +276,39 @@ Proof.
     now rewrite Hm.
 Qed.
 
-Lemma eval_iff_ref_run : forall d p t r, eval d p t r <-> ref_run d p = (t, r).
-Proof.
-  intros d p t r. split; [apply eval_ref_run|].
-  intros H. pose proof (ref_run_eval p d) as E. now rewrite H in E.
-Qed.
+Lemma eval_iff_ref_run : forall d c p t r c', eval d c p t r c' <-> ref_run d c p = (t, r, c').
+Proof. intros. split; [apply eval_ref_run | apply ref_run_eval]. Qed.
 
 (* the machine against the relation *)
-Lemma machine_follows_eval : forall p st t r0,
+Lemma machine_follows_eval : forall p st t r0 c',
   depth st + nesting p <= exc_max_depth ->
-  eval (depth st) p t r0 ->
+  eval (depth st) (msg st) p t r0 c' ->
   let '(tr, r, st') := mach p st in
-  tr = t /\ depth st' = depth st /\
+  tr = t /\ depth st' = depth st /\ msg st' = c' /\
   match r0 with
   | RNormal => r = MNormal
   | RRaised k m => obj st' = Some k /\ msg st' = m /\
                    match bufs st with [] => r = MDied (Some k) m | b :: _ => r = MJump b end
   end.
 Proof.
-  intros p st t r0 Hb He. apply eval_ref_run in He.
+  intros p st t r0 c' Hb He. apply eval_ref_run in He.
   pose proof (machine_refines_structured p st Hb) as H.
   destruct (mach p st) as [[tr r] st']. rewrite He in H.
-  destruct H as (-> & Hd & _ & Hres). split; [reflexivity|]. split; [exact Hd|].
+  destruct H as (-> & Hd & _ & Hm & Hres). split; [reflexivity|]. split; [exact Hd|]. split; [exact Hm|].
   destruct r0; [apply Hres | exact Hres].
 Qed.
 
 (* A try block enters its handler exactly when its body lets an exception escape that its filter
    accepts; the handler is then entered once, with that exception bound. *)
-Lemma handler_runs_iff : forall d b fs h t r,
-  eval d (PTry b fs h) t r ->
-  forall t1 r1, eval (S d) b t1 r1 ->
-  ((exists k m, r1 = RRaised k m /\ (fs = [] \/ In k fs)) <->
+Lemma handler_runs_iff : forall d c b fs h t r c',
+  eval d c (PTry b fs h) t r c' ->
+  forall t1 r1 c1, eval (S d) c b t1 r1 c1 ->
+  ((exists k m, r1 = RRaised k m /\ accepts fs k) <->
    (exists k m t2, t = t1 ++ EHandler k m d :: t2)) /\
-  (forall k m t2, t = t1 ++ EHandler k m d :: t2 -> r1 = RRaised k m /\ exists r2, eval d h t2 r2 /\ r = r2).
+  (forall k m t2, t = t1 ++ EHandler k m d :: t2 ->
+     r1 = RRaised k m /\ exists r2, eval d c1 h t2 r2 c' /\ r = r2).
 Proof.
-  intros d b fs h t r He t1 r1 Hb.
+  intros d c b fs h t r c' He t1 r1 c1 Hb.
   apply eval_ref_run in He. apply eval_ref_run in Hb. cbn [ref_run] in He. rewrite Hb in He.
   assert (Hnil : forall (l : list event) x l', l <> l ++ x :: l').
   { intros l x l' E. apply (f_equal (@length event)) in E. rewrite app_length in E. cbn in E. lia. }
@@ -315,13 +317,13 @@ Proof.
     + split; [intros (k & m & Hk & _); discriminate | intros (k & m & t2 & E); now apply Hnil in E].
     + intros k m t2 E. now apply Hnil in E.
   - destruct (matches fs k) eqn:Hm.
-    + destruct (ref_run d h) as [t2 r2] eqn:Rh. inversion He; subst. split.
+    + destruct (ref_run d c1 h) as [[t2 r2] c2] eqn:Rh. inversion He; subst. split.
       * split; [intros _; now exists k, m, t2 | intros _; exists k, m; split; [reflexivity | now apply matches_spec]].
       * intros k' m' t2' E. apply app_inv_head in E. inversion E; subst.
         split; [reflexivity|]. exists r. split; [now apply eval_iff_ref_run | reflexivity].
-    + inversion He; subst. apply matches_false_spec in Hm. destruct Hm as (Hne & Hnin). split.
+    + inversion He; subst. assert (Hm' := Hm). apply matches_false_spec in Hm. split.
       * split.
-        -- intros (k' & m' & Hk & [Hf|Hin]); inversion Hk; subst; contradiction.
+        -- intros (k' & m' & Hk & Hacc). inversion Hk; subst. apply matches_spec in Hacc. congruence.
         -- intros (k' & m' & t2 & E). now apply Hnil in E.
       * intros k' m' t2 E. now apply Hnil in E.
 Qed.
@@ -331,35 +333,35 @@ Qed.
 Lemma chain_app : forall l1 l2 p, chain (l1 ++ l2) p = chain l2 (chain l1 p).
 Proof. induction l1 as [|[fs h] l1 IH]; intros l2 p; cbn; [reflexivity | apply IH]. Qed.
 
-Lemma passes_through : forall pre p d t1 k m,
-  ref_run (length pre + d) p = (t1, RRaised k m) ->
+Lemma passes_through : forall pre p d c t1 k m c1,
+  ref_run (length pre + d) c p = (t1, RRaised k m, c1) ->
   Forall (fun lv => matches (fst lv) k = false) pre ->
-  ref_run d (chain pre p) = (t1, RRaised k m).
+  ref_run d c (chain pre p) = (t1, RRaised k m, c1).
 Proof.
-  induction pre as [|[fs h] pre IH]; intros p d t1 k m Hp Hall; cbn [chain].
+  induction pre as [|[fs h] pre IH]; intros p d c t1 k m c1 Hp Hall; cbn [chain].
   - exact Hp.
   - inversion Hall as [|x l Hx Hl]; subst. cbn [fst] in Hx.
     apply IH; [|exact Hl].
     cbn [ref_run]. cbn [length Nat.add] in Hp. rewrite Hp, Hx. reflexivity.
 Qed.
 
-Lemma nearest_matching_handler : forall pre fs h p d t1 k m,
-  ref_run (S (length pre + d)) p = (t1, RRaised k m) ->
+Lemma nearest_matching_handler : forall pre fs h p d c t1 k m c1,
+  ref_run (S (length pre + d)) c p = (t1, RRaised k m, c1) ->
   Forall (fun lv => matches (fst lv) k = false) pre ->
   matches fs k = true ->
-  ref_run d (chain (pre ++ [(fs, h)]) p) =
-    let '(t2, r2) := ref_run d h in (t1 ++ EHandler k m d :: t2, r2).
+  ref_run d c (chain (pre ++ [(fs, h)]) p) =
+    let '(t2, r2, c2) := ref_run d c1 h in (t1 ++ EHandler k m d :: t2, r2, c2).
 Proof.
-  intros pre fs h p d t1 k m Hp Hall Hm.
+  intros pre fs h p d c t1 k m c1 Hp Hall Hm.
   rewrite chain_app. cbn [chain ref_run].
-  rewrite (passes_through pre p (S d) t1 k m); [| now rewrite <- plus_n_Sm | exact Hall].
+  rewrite (passes_through pre p (S d) c t1 k m c1); [| now rewrite <- plus_n_Sm | exact Hall].
   now rewrite Hm.
 Qed.
 
-Lemma nobody_matches : forall pre p t1 k m,
-  ref_run (length pre) p = (t1, RRaised k m) ->
+Lemma nobody_matches : forall pre p c t1 k m c1,
+  ref_run (length pre) c p = (t1, RRaised k m, c1) ->
   Forall (fun lv => matches (fst lv) k = false) pre ->
-  ref_run 0 (chain pre p) = (t1, RRaised k m).
+  ref_run 0 c (chain pre p) = (t1, RRaised k m, c1).
 Proof. intros. apply passes_through; [now rewrite Nat.add_0_r | assumption]. Qed.
 
 Lemma nesting_chain : forall levels p,
@@ -372,39 +374,39 @@ Proof.
 Qed.
 
 (* the two chain facts for the machine *)
-Lemma machine_nearest_matching_handler : forall pre fs h p st t1 k m,
+Lemma machine_nearest_matching_handler : forall pre fs h p st t1 k m c1,
   depth st + nesting (chain (pre ++ [(fs, h)]) p) <= exc_max_depth ->
-  ref_run (S (length pre + depth st)) p = (t1, RRaised k m) ->
-  Forall (fun lv => fst lv <> [] /\ ~ In k (fst lv)) pre ->
-  (fs = [] \/ In k fs) ->
+  ref_run (S (length pre + depth st)) (msg st) p = (t1, RRaised k m, c1) ->
+  Forall (fun lv => rejects (fst lv) k) pre ->
+  accepts fs k ->
   let '(tr, r, st') := mach (chain (pre ++ [(fs, h)]) p) st in
-  let '(t2, r2) := ref_run (depth st) h in
+  let '(t2, r2, c2) := ref_run (depth st) c1 h in
   tr = t1 ++ EHandler k m (depth st) :: t2 /\ depth st' = depth st /\
   (r2 = RNormal -> r = MNormal).
 Proof.
-  intros pre fs h p st t1 k m Hb Hp Hall Hm.
+  intros pre fs h p st t1 k m c1 Hb Hp Hall Hm.
   pose proof (machine_refines_structured _ st Hb) as H.
   destruct (mach (chain (pre ++ [(fs, h)]) p) st) as [[tr r] st'].
-  rewrite (nearest_matching_handler pre fs h p (depth st) t1 k m) in H.
-  - destruct (ref_run (depth st) h) as [t2 r2].
-    destruct H as (-> & Hd & _ & Hres). split; [reflexivity|]. split; [exact Hd|].
+  rewrite (nearest_matching_handler pre fs h p (depth st) (msg st) t1 k m c1) in H.
+  - destruct (ref_run (depth st) c1 h) as [[t2 r2] c2].
+    destruct H as (-> & Hd & _ & _ & Hres). split; [reflexivity|]. split; [exact Hd|].
     intros ->. apply Hres.
   - exact Hp.
   - eapply Forall_impl; [|exact Hall]. intros lv Hlv. now apply matches_false_spec.
   - now apply matches_spec.
 Qed.
 
-Lemma machine_nobody_matches : forall pre p t1 k m,
+Lemma machine_nobody_matches : forall pre p t1 k m c1,
   nesting (chain pre p) <= exc_max_depth ->
-  ref_run (length pre) p = (t1, RRaised k m) ->
-  Forall (fun lv => fst lv <> [] /\ ~ In k (fst lv)) pre ->
+  ref_run (length pre) 0 p = (t1, RRaised k m, c1) ->
+  Forall (fun lv => rejects (fst lv) k) pre ->
   let '(tr, r, st') := mach (chain pre p) st_init in
   tr = t1 /\ r = MDied (Some k) m /\ depth st' = 0.
 Proof.
-  intros pre p t1 k m Hb Hp Hall.
+  intros pre p t1 k m c1 Hb Hp Hall.
   pose proof (whole_program _ Hb) as H.
   destruct (mach (chain pre p) st_init) as [[tr r] st'].
-  rewrite (nobody_matches pre p t1 k m) in H.
+  rewrite (nobody_matches pre p 0 t1 k m c1) in H.
   - destruct H as (-> & Hd & ->). auto.
   - exact Hp.
   - eapply Forall_impl; [|exact Hall]. intros lv Hlv. now apply matches_false_spec.
@@ -424,15 +426,15 @@ Qed.
 
 Lemma foreach_from : forall k post pre c fuel,
   NoDup (pre ++ c :: post) -> length post + 2 <= fuel ->
-  foreach_matches fuel (pre ++ c :: post) (Some c) k = Some (existsb (Nat.eqb k) (c :: post)).
+  foreach_matches fuel (pre ++ c :: post) (Some c) k = Some (existsb (fun f => kind_of f =? kind_of k) (c :: post)).
 Proof.
   intros k. induction post as [|x post IH]; intros pre c fuel Hnd Hf.
   - destruct fuel as [|[|f]]; cbn [length] in Hf; try lia.
-    cbn [foreach_matches existsb]. destruct (k =? c); [reflexivity|].
+    cbn [foreach_matches existsb]. destruct (kind_of c =? kind_of k); [reflexivity|].
     rewrite tuple_next_at; [reflexivity|].
     apply NoDup_remove_2 in Hnd. intros H. apply Hnd. rewrite app_nil_r. exact H.
   - destruct fuel as [|f]; cbn [length] in Hf; [lia|].
-    cbn [foreach_matches]. cbn [existsb]. destruct (k =? c); [reflexivity|]. cbn [orb].
+    cbn [foreach_matches]. cbn [existsb]. destruct (kind_of c =? kind_of k); [reflexivity|]. cbn [orb].
     rewrite tuple_next_at.
     + cbn [hd_error].
       replace (pre ++ c :: x :: post) with ((pre ++ [c]) ++ x :: post) in * by (now rewrite <- app_assoc).
@@ -451,5 +453,25 @@ Qed.
 
 (* ... and never finishes on a filter that names an object twice, when that object is not the thrown one *)
 Lemma foreach_diverges_on_duplicate : forall fuel,
-  foreach_matches fuel [0; 0] (hd_error [0; 0]) 1 = None.
+  foreach_matches fuel [0; 0] (hd_error [0; 0]) 10 = None.
 Proof. induction fuel as [|f IH]; [reflexivity|]. cbn. exact IH. Qed.
+
+(* ------------------------------------------------------------------ identity of the bound object *)
+
+(* "The object bound in the handler is the one that was thrown" — by identity, also when an object
+   that is `eq` to it (same kind) was thrown and handled just before and is still held in the
+   record, and whatever the two formats are.  (The message the second handler sees is the second
+   throw's, or — empty format, m2 = 0 — the one already in the record.) *)
+Lemma bound_object_is_thrown_identity : forall o1 o2 m1 m2 fs,
+  accepts fs o2 ->
+  fst (mach (PSeq (PTry (PThrow o1 m1) [] PSkip) (PTry (PThrow o2 m2) fs PSkip)) st_init)
+  = ([EHandler o1 (set_msg m1 0) 0; EHandler o2 (set_msg m2 (set_msg m1 0)) 0], MNormal).
+Proof.
+  intros o1 o2 m1 m2 fs Hacc. apply matches_spec in Hacc.
+  set (P := PSeq (PTry (PThrow o1 m1) [] PSkip) (PTry (PThrow o2 m2) fs PSkip)).
+  assert (Hn : nesting P <= exc_max_depth) by (apply Nat.leb_le; reflexivity).
+  pose proof (whole_program P Hn) as H.
+  destruct (mach P st_init) as [[tr r] st']. cbn [fst].
+  unfold P in H. cbn [ref_run matches app] in H. rewrite Hacc in H. cbn [app] in H.
+  destruct H as (-> & _ & ->). reflexivity.
+Qed.
